@@ -129,7 +129,8 @@ def read_only_uses(val, M):
 
 
 def deep_read(obj, depth):
-    """read every member of every member (the reads instantiate unset OPTIONAL/DEFAULT members all the way down)"""
+    """read every member of every existing member (a read instantiates the placeholder of an unset OPTIONAL/DEFAULT member;
+    that placeholder itself is not read into)"""
     from pyasn1.type import univ
     if depth > 4:
         return
@@ -143,10 +144,14 @@ def deep_read(obj, depth):
             except Exception:
                 continue
             try:
-                c.isValue and c.prettyPrint()
+                present = bool(c.isValue)
+                present and c.prettyPrint()
             except Exception:
-                pass
-            deep_read(c, depth + 1)
+                present = False
+            # only *existing* members are read further down (C19: "reads of existing members never change"); subscripting
+            # into the placeholder of an absent member is the library's documented way of building it in place
+            if present:
+                deep_read(c, depth + 1)
     elif isinstance(obj, univ.Choice):
         try:
             deep_read(obj.getComponent(), depth + 1)
